@@ -41,8 +41,8 @@ VARIANTS = [
       rule='C02-REG', key='verifier:'),
     M('C02', 'max-verifier-not-mirror', E(BC, "        if self.is_null(M):       # If there are no values, no value can\n            return True           # the maximum constraint", "        if self.is_null(M):       # If there are no values, no value can\n            return False          # the maximum constraint"),
       rule='C02-MIRROR', key='verify_min_constraint'),
-    M('C02', 'refactor-rename-value-local', E(BC, "        value = constraint.value\n        if self.is_null(value):   # a null value is not considered to be an\n            return True           # active constraint, so is always satisfied\n        result = self.get_null_count(colname) <= value",
-                                              "        limit = constraint.value\n        if self.is_null(limit):   # a null value is not considered to be an\n            return True           # active constraint, so is always satisfied\n        result = self.get_null_count(colname) <= limit"),
+    M('C02', 'refactor-rename-value-local', E(BC, "        value = constraint.value\n        if self.is_null(value):   # a null value is not considered to be an\n            return True           # active constraint, so is always satisfied\n        result = self.get_null_count(colname) <= value\n\n        if bool(result) or not detect:\n            return result\n        self.detect_max_nulls_constraint(colname, value)",
+                                              "        limit = constraint.value\n        if self.is_null(limit):   # a null value is not considered to be an\n            return True           # active constraint, so is always satisfied\n        result = self.get_null_count(colname) <= limit\n\n        if bool(result) or not detect:\n            return result\n        self.detect_max_nulls_constraint(colname, limit)"),
       kind='refactor'),
     M('C02', 'refactor-sign-arms-reordered', E(BC, "        elif value == 'positive':\n            result = m > 0\n        elif value == 'non-negative':\n            result = m >= 0\n", "        elif value == 'non-negative':\n            result = m >= 0\n        elif value == 'positive':\n            result = m > 0\n"),
       kind='refactor'),
